@@ -7,6 +7,7 @@ import (
 	"crypto/elliptic"
 	"crypto/rand"
 	"crypto/rsa"
+	"encoding/binary"
 	"encoding/pem"
 	"errors"
 	"fmt"
@@ -29,12 +30,14 @@ import (
 
 func init() {
 	ops["rpc"] = runRPC
+	ops["trunc"] = runTrunc
 	ops["slots"] = runSlots
 }
 
 func registerMore(g *hx.Gen, out *hx.Out) {
 	if hx.Want("rpc") {
 		genRPC(g, out)
+		genTrunc(g, out)
 	}
 	if hx.Want("slots") {
 		genSlots(g, out)
@@ -68,6 +71,90 @@ func errRes(err error) string {
 		return "connerr"
 	}
 	return "err:" + hx.HexS(err.Error())
+}
+
+// runTrunc: the client against a peer that announces a response of `declared` bytes, sends only
+// `sent` of them and closes. Whatever the operation, the caller must get an error, never a result
+// made of the bytes that did arrive.
+// trunc args: client operation (forward | listslots | readslot | attestslot), declared, sent
+func runTrunc(args []string) []string {
+	declared, _ := strconv.Atoi(args[1])
+	sent, _ := strconv.Atoi(args[2])
+	cc, sc := socketPair()
+	go func() {
+		defer sc.Close()
+		var hdr [4]byte
+		if _, err := io.ReadFull(sc, hdr[:]); err != nil {
+			return
+		}
+		body := make([]byte, binary.BigEndian.Uint32(hdr[:]))
+		if _, err := io.ReadFull(sc, body); err != nil {
+			return
+		}
+		// a well-formed response of the right kind, as far as it goes
+		var resp []byte
+		_, pemBytes := fixedCert()
+		switch args[0] {
+		case "listslots":
+			resp = append(sshStringB([]byte("9a,9c,9d,9e,82,83,84,85,86,87,88,89,8a,8b,8c,8d,8e,8f,90,91,92,93,94,95,f9")), sshStringB(nil)...)
+		case "readslot", "attestslot":
+			resp = append(sshStringB(pemBytes), sshStringB(nil)...)
+		default:
+			resp = bytes.Repeat([]byte{0x5A}, 4096)
+		}
+		for len(resp) < declared {
+			resp = append(resp, resp...)
+		}
+		binary.BigEndian.PutUint32(hdr[:], uint32(declared))
+		sc.Write(hdr[:])
+		sc.Write(resp[:sent])
+	}()
+	cl, err := yubiagent.NewClientFromConn(cc)
+	if err != nil {
+		panic(err)
+	}
+	defer cc.Close()
+	cc.SetDeadline(time.Now().Add(5 * time.Second))
+	switch args[0] {
+	case "listslots":
+		slots, err := cl.ListSlots()
+		if err != nil {
+			return []string{"error"}
+		}
+		return []string{"result " + hx.StrList(slots)}
+	case "readslot", "attestslot":
+		fn := cl.ReadSlot
+		if args[0] == "attestslot" {
+			fn = cl.AttestSlot
+		}
+		c, err := fn("9a")
+		if err != nil {
+			return []string{"error"}
+		}
+		return []string{fmt.Sprintf("result %d bytes", len(c.Raw))}
+	default:
+		resp, err := cl.Forward([]byte{200, 1, 2, 3})
+		if err != nil {
+			return []string{"error"}
+		}
+		return []string{fmt.Sprintf("result %d bytes", len(resp))}
+	}
+}
+
+func sshStringB(b []byte) []byte {
+	l := len(b)
+	return append([]byte{byte(l >> 24), byte(l >> 16), byte(l >> 8), byte(l)}, b...)
+}
+
+func genTrunc(g *hx.Gen, out *hx.Out) {
+	n := 0
+	for _, op := range []string{"forward", "listslots", "readslot", "attestslot"} {
+		for _, d := range [][2]int{{1000, 500}, {1000, 999}, {1000, 0}, {1000, 1}, {8, 7}, {5, 4}, {70000, 4096}, {70000, 69999}, {100, 50}, {300, 299}} {
+			args := []string{op, strconv.Itoa(d[0]), strconv.Itoa(d[1])}
+			out.Case(fmt.Sprintf("tr%d", n), "trunc", args, safe(runTrunc, args))
+			n++
+		}
+	}
 }
 
 // rpc args: op, then op-specific fields, last two: slots list, slot error (scripted agent setup)
